@@ -378,8 +378,10 @@ class Inliner:
 
     def single(self, name):
         d = self.defs.get(name)
-        if name in self.params or not d or len(d) != 1 or d[0] is None:
+        if name in self.params or not d or any(x is None for x in d):
             return None
+        if len(d) > 1 and len({norm_src(x) for x in d}) != 1:
+            return None  # assigned differently on different paths: not substituted (see `alternatives`)
         return d[0]
 
     def expr(self, e, depth=0, stack=()):
